@@ -19,6 +19,7 @@ import (
 )
 
 type verifier struct {
+	reveal         []string
 	pkg            *packages.Package
 	e              *Engine
 	sp             *spec.File
@@ -102,6 +103,13 @@ func (v *verifier) query(st *State, extraHyps []*sx.T, goal *sx.T) *smt.Query {
 		env := spec.NewEnv(v.sp, v.e.Structs)
 		for _, a := range v.sp.Axioms {
 			v.axioms = append(v.axioms, env.Tr(a.Body).T)
+		}
+		for _, name := range v.reveal {
+			d := v.sp.Pures[name]
+			if d == nil || !d.Opaque {
+				panic("reveal of " + name + ": not an opaque pure function of this module")
+			}
+			v.axioms = append(v.axioms, env.RevealAxiom(d))
 		}
 		if v.axioms == nil {
 			v.axioms = []*sx.T{}
@@ -254,7 +262,7 @@ func (e *Engine) VerifyFunc(pkgPath, key string, modular bool) (rep *FuncReport,
 	}
 	e.consts = nil
 	e.fresh = 0
-	v := &verifier{e: e, sp: sp, modular: modular, obls: map[string]*Obligation{}, explicitFaults: fs.Nofault, pkg: pkg}
+	v := &verifier{e: e, sp: sp, modular: modular, obls: map[string]*Obligation{}, explicitFaults: fs.Nofault, pkg: pkg, reveal: fs.Reveal}
 	base := pkg.Types.Name() + "." + key
 
 	names, objs := paramNames(decl, pkg.TypesInfo)
@@ -604,7 +612,10 @@ func (e *Engine) LoadGlobals(pkgPath string) (err error) {
 // SpecFuncs lists the functions under contract of a package in stable order.
 func (e *Engine) SpecFuncs(pkgPath string) []string {
 	var out []string
-	for k := range e.Specs[pkgPath].Funcs {
+	for k, f := range e.Specs[pkgPath].Funcs {
+		if f.Imported {
+			continue
+		}
 		out = append(out, k)
 	}
 	sort.Strings(out)
@@ -775,11 +786,30 @@ func (e *Engine) VerifyLemmas(pkgPath string) *FuncReport {
 	env := spec.NewEnv(sp, e.Structs)
 	env.Lists = e.Lists
 	for _, l := range sp.Lemmas {
+		// each lemma sees the module's axioms plus the definitions it reveals
+		v.axioms = nil
+		v.reveal = l.Reveal
+		var using []*sx.T
+		for _, u := range l.Using {
+			found := false
+			for _, prev := range sp.Lemmas {
+				if prev == l {
+					break
+				}
+				if prev.Name == u && prev.Finding == "" {
+					using = append(using, env.Tr(prev.Body).T)
+					found = true
+				}
+			}
+			if !found {
+				panic("lemma " + l.Name + " uses " + u + ", which is not an earlier lemma of this module")
+			}
+		}
 		text := l.Name
 		if l.Text != "" {
 			text = l.Name + ": " + l.Text
 		}
-		v.add("lemma."+l.Name, l.Tags, text, v.query(st, nil, env.Tr(l.Body).T))
+		v.add("lemma."+l.Name, l.Tags, text, v.query(st, using, env.Tr(l.Body).T))
 		if l.Finding != "" {
 			body := l.Body
 			if q, ok := body.(*spec.EQuant); ok && q.Forall {
